@@ -2,7 +2,7 @@
 From Coq Require Import ZArith List String Bool Lia.
 Import ListNotations.
 From TD Require Import Model.Keys Proofs.KeysP Model.C04_Tree Model.C04_Ops Model.C04_Views Model.C04_Step
-     Spec.C04_NestedDict Proofs.C04_AssocP Proofs.C04_CoreP Proofs.C04_RenameP.
+     Spec.C04_NestedDict Proofs.C04_AssocP Proofs.C04_CoreP Proofs.C04_RenameP Proofs.C04_UpdateP.
 Open Scope string_scope.
 Open Scope list_scope.
 
@@ -79,8 +79,28 @@ Definition in_scope (o : op) : Prop :=
   match o with
   | ONop | OClear | OFilterEmpty | ODel _ | ODelItem _ | OPop _ _ | OSet _ _ | OSetItem _ _ | OSetDefault _ _ => True
   | ORename k1 k2 _ => ~ strict_prefix (strings k1) (strings k2)   (* D42 *)
+  | OUpdate _ => True
   | _ => False
   end.
+
+(* operations that either succeed or leave the subject untouched (update stops at the first failing item and keeps
+   what it has written so far: the code documents this, a python loop over d[k] = v does the same) *)
+Definition atomic (o : op) : Prop := match o with OUpdate _ => False | _ => True end.
+
+Lemma update_paths_eq : forall items sitems es,
+  traverse (fun kv : pykey * tree => option_map (fun p => (p, abs (snd kv))) (kp (fst kv))) items = Some sitems ->
+  update items es = update_paths (map (fun kv => (strings (fst kv), snd kv)) items) es
+  /\ sitems = map (fun pv => (fst pv, abs (snd pv))) (map (fun kv => (strings (fst kv), snd kv)) items).
+Proof.
+  induction items as [|[k v] r IH]; intros sitems es T; [injection T as <-; now split|].
+  cbn [traverse fst snd] in T. destruct (kp k) as [p|] eqn:K; [|discriminate]. cbn [option_map] in T.
+  destruct (traverse _ r) as [sr|] eqn:TR; [|discriminate]. injection T as <-.
+  destruct (kp_some _ _ K) as [_ [S [U _]]].
+  cbn [update update_paths map fst snd]. rewrite U, S.
+  destruct (upd_item v p es) as [es' [e|]]; [split; [reflexivity|]|].
+  - destruct (IH sr es eq_refl) as [_ E]. now rewrite E.
+  - destruct (IH sr es' eq_refl) as [E1 E2]. split; [exact E1|now rewrite E2].
+Qed.
 
 Lemma of_res_refines es r (d' : option dict) :
   match r with Ok es' => d' = Some (absE es') | Raise _ => d' = None end ->
@@ -92,13 +112,13 @@ Proof.
   destruct r as [es'|e]; intros ->; cbn; [split; reflexivity|split; [discriminate|reflexivity]].
 Qed.
 
-Theorem refine_step es o so : abs_op o = Some so -> in_scope o ->
+Lemma refine_step_atomic es o so : abs_op o = Some so -> in_scope o -> atomic o ->
   match nd_step py_split (absE es) so with
   | Some r => sr_err (step es o) = None /\ abs_sres (step es o) = r
   | None => sr_err (step es o) <> None /\ sr_cont (step es o) = es
   end.
 Proof.
-  intros A S. destruct o; cbn [in_scope] in S; try contradiction; cbn [abs_op] in A.
+  intros A S AT. destruct o; cbn [in_scope] in S; try contradiction; cbn [abs_op] in A; cbn [atomic] in AT; try contradiction.
   - (* nop *) injection A as <-. cbn. split; reflexivity.
   - (* set *)
     destruct (kp k) as [p|] eqn:K; [|discriminate]. injection A as <-. destruct (kp_some _ _ K) as [W [_ [U N]]].
@@ -143,6 +163,25 @@ Proof.
   - (* clear *) injection A as <-. cbn [step nd_step]. rewrite clear_nil. cbn. split; reflexivity.
   - (* filter_empty *) injection A as <-. cbn [step nd_step]. cbn. split; [reflexivity|].
     unfold abs_sres. cbn. now rewrite filter_empty_abs.
+Qed.
+
+Theorem refine_step es o so : abs_op o = Some so -> in_scope o ->
+  match nd_step py_split (absE es) so with
+  | Some r => sr_err (step es o) = None /\ abs_sres (step es o) = r
+  | None => sr_err (step es o) <> None /\ (atomic o -> sr_cont (step es o) = es)
+  end.
+Proof.
+  intros A S. destruct o;
+    try (pose proof (refine_step_atomic es _ so A S I) as R;
+         destruct (nd_step py_split (absE es) so); [exact R|destruct R as [R1 R2]; split; [exact R1|intros _; exact R2]]).
+  (* update: not atomic *)
+  cbn [abs_op] in A. destruct (traverse _ items) as [sitems|] eqn:T; [|discriminate]. injection A as <-.
+  destruct (update_paths_eq items sitems es T) as [E1 E2].
+  cbn [step nd_step]. rewrite E1, E2.
+  pose proof (update_refines (map (fun kv => (strings (fst kv), snd kv)) items) es) as U.
+  destruct (update_paths _ es) as [es' [e|]]; rewrite U; cbn.
+  - split; [discriminate|intros []].
+  - split; reflexivity.
 Qed.
 
 (* ---- well-formedness is an invariant ---- *)
@@ -225,6 +264,16 @@ Proof.
     { rewrite (wf_key_keyres k1 W1), (wf_key_keyres k2 W2), S1, S2, rename_r_path by assumption.
       destruct k1; destruct k2; try reflexivity; discriminate. }
     rewrite R. destruct (rename_p p q safe es) as [es' e] eqn:E. exact (rename_p_wf _ _ _ _ _ _ W E).
+  - (* update *)
+    destruct (traverse _ items) as [sitems|] eqn:T; [|discriminate].
+    destruct (update_paths_eq items sitems es T) as [E1 _]. cbn [step]. rewrite E1.
+    assert (G : forall l es0, Forall (fun pv => wf (snd pv)) l -> wfE es0 -> wfE (fst (update_paths l es0))).
+    { induction l as [|[p v] r IHl]; intros es0 Fl W0; [exact W0|]. inversion Fl; subst. cbn [update_paths].
+      pose proof (upd_item_wf v p es0 ltac:(assumption) W0) as W1.
+      destruct (upd_item v p es0) as [es1 [e|]]; cbn [fst] in *; [exact W1|now apply IHl]. }
+    specialize (G (map (fun kv => (strings (fst kv), snd kv)) items) es).
+    destruct (update_paths _ es) as [es' e]. cbn [fst] in G. apply G; [|exact W].
+    rewrite Forall_map. exact V.
   - destruct (kp k) as [p|] eqn:K; [|discriminate]. destruct (kp_some _ _ K) as [_ [_ [U N]]].
     cbn [step]. unfold setdefault, set_. rewrite U.
     destruct (if is_tuple k then view_contains true k es else skeys_contains k es) as [b|e]; [|exact W].
@@ -243,13 +292,27 @@ Fixpoint nd_run (d : dict) (sops : list sop) : dict :=
   | so :: r => match nd_step py_split d so with Some res => nd_run (s_cont res) r | None => nd_run d r end
   end.
 
+(* every operation that is not atomic succeeds on the nested dict (the replay of a failing multi-step operation is
+   not determined by the property) *)
+Fixpoint nd_ok (d : dict) (ops : list op) (sops : list sop) : Prop :=
+  match ops, sops with
+  | o :: ro, so :: rs =>
+      match nd_step py_split d so with
+      | Some res => nd_ok (s_cont res) ro rs
+      | None => atomic o /\ nd_ok d ro rs
+      end
+  | _, _ => True
+  end.
+
 Theorem history : forall ops sops es, wfE es ->
   Forall2 (fun o so => abs_op o = Some so /\ in_scope o /\ values_wf o) ops sops ->
+  nd_ok (absE es) ops sops ->
   absE (run es ops) = nd_run (absE es) sops /\ wfE (run es ops).
 Proof.
-  intros ops sops es W F. revert es W. induction F as [|o so ops sops [A [S V]] F IH]; intros es W; [now split|].
-  cbn [run nd_run]. pose proof (refine_step es o so A S) as R. pose proof (step_wf es o so W A S V) as W'.
+  intros ops sops es W F. revert es W. induction F as [|o so ops sops [A [S V]] F IH]; intros es W OK; [now split|].
+  cbn [run nd_run]. cbn [nd_ok] in OK.
+  pose proof (refine_step es o so A S) as R. pose proof (step_wf es o so W A S V) as W'.
   destruct (nd_step py_split (absE es) so) as [res|].
-  - destruct R as [_ R]. rewrite <- R. cbn [abs_sres s_cont]. exact (IH _ W').
-  - destruct R as [_ R]. rewrite R in *. exact (IH _ W).
+  - destruct R as [_ R]. rewrite <- R in *. cbn [abs_sres s_cont] in *. exact (IH _ W' OK).
+  - destruct OK as [AT OK]. destruct R as [_ R]. rewrite (R AT) in *. exact (IH _ W OK).
 Qed.
